@@ -1,3 +1,4 @@
+import __future__
 import ast
 import inspect
 import linecache
@@ -379,6 +380,11 @@ def rename_function(fn, newname):
     return new_fn
 
 
+_FUTURE_FLAGS = 0
+for _name in __future__.all_feature_names:
+    _FUTURE_FLAGS |= getattr(__future__, _name).compiler_flag
+
+
 class NameConverter(ast.NodeTransformer):
     def __init__(
         self,
@@ -695,7 +701,14 @@ def recode(fn, ovld, recurse_sym, call_next_sym, newname, slot=None):
         new = closure_wrap(new.body[0], "irrelevant", fn.__code__.co_freevars)
     ast.fix_missing_locations(new)
     ast.increment_lineno(new, fn.__code__.co_firstlineno - 1 + shift)
-    res = compile(new, mode="exec", filename=fn.__code__.co_filename)
+    # The method is compiled like its module was (from __future__ import ...)
+    res = compile(
+        new,
+        mode="exec",
+        filename=fn.__code__.co_filename,
+        flags=fn.__code__.co_flags & _FUTURE_FLAGS,
+        dont_inherit=True,
+    )
     if fn.__closure__:
         res = [x for x in res.co_consts if isinstance(x, CodeType)][0]
     (*_, new_code) = [ct for ct in res.co_consts if isinstance(ct, CodeType)]
